@@ -66,6 +66,8 @@ def gen_case(rng, tier):
         isa['instructions'][nm] = {'bytecode': {'value': i + 1, 'size': 8}}
     if macs:
         isa['macros'] = {m: [{'instructions': [mns[0]]}] for m in macs}
+    elif rng.random() < 0.4:
+        isa['macros'] = {}        # the section written, nothing in it
     if pre:
         p = {}
         kinds = ['constants', 'data', 'memory_zones']
